@@ -64,6 +64,9 @@ def make_case(tier, seed, index):
             # (in the anchors of a quick run the rarer forms of the operations are not left to chance)
             pops_ = ["remove_pop"] + [x for x in pops_ if x != "remove_pop"][:2]
             case["remove_pop_by"] = "full name"
+            if index in (1, 2):
+                pops_ = ["reconcile"] + pops_[:1]  # ... and a reconciliation that moves baselines only
+                case["reconcile_mode"] = 1
         case["progset_ops"] = pops_
         case.update({"kind": "corpus-roundtrip", "framework": fw, "databook": db, "progbook": pbs[int(rng.integers(0, len(pbs)))] if pbs else None, "mode": "mild", "budget_factor": 1.0, "prog_start_step": 1.0, "ops": ops, "seed": [seed, 16, index, 9]})
         return case
@@ -257,6 +260,10 @@ def run_case(case):
         nt = 0
         for k in ("framework", "databook", "progbook", "calibration", "binary"):
             nt += round_trip(R, k, P, pset, instr, np.random.default_rng(1))
+        if name in ("sir", "udt", "usdt"):
+            # (small models: a reconciliation that moves baselines only gets somewhere within its second)
+            progset_ops(R, {"progset_ops": ["reconcile"], "ops": ["reconcile"], "reconcile_mode": 1}, P, pset, instr, np.random.default_rng(2))
+            progset_ops(R, {"progset_ops": ["reconcile", "copy"], "ops": ["reconcile", "copy"], "reconcile_mode": 0}, P, pset, instr, np.random.default_rng(3))
         return {"records": R.records(), "stats": R.stats, "nontrivial": True, "sample": {"kind": "library", "name": name}}
 
     if kind == "corpus-roundtrip":
@@ -590,7 +597,7 @@ def progset_ops(R, case, P, pset, instr, rng):
                     continue
                 P.progsets.append(ps) if ps.name not in P.progsets else None
                 yr = float(P.settings.sim_start)
-                which = int(rng.choice([0, 1, 3]))  # (outcome bounds without baseline bounds select nothing to reconcile: ASD refuses an empty vector)
+                which = int(case.get("reconcile_mode", rng.choice([0, 1, 3])))  # (outcome bounds without baseline bounds select nothing to reconcile: ASD refuses an empty vector)
                 ps, _, _ = at.reconcile(P, parset, ps, yr, max_time=1, unit_cost_bounds=0.2 if which in (0, 3) else 0.0, baseline_bounds=0.3 if which in (0, 1) else 0.0, outcome_bounds=0.3 if which in (0, 2) else 0.0)
                 R.count("reconcile_mode[%d]" % which)
             elif op == "remove_pop":
